@@ -235,18 +235,23 @@ def enum_tiny(prop, mode="wrapping"):
         if any(o.startswith("bufnew") for o in p):
             p.append("bufdrop")
     kinds = [("slice", "exact", None), ("vec", "exact", None), ("array", "exact", None), ("range", "exact", None),
-             ("iter", "exact", True), ("iter", "inexact", False), ("iter", "none", True)]
+             ("iter", "exact", True), ("iter", "inexact", False), ("iter", "none", True),
+             ("range+5", "exact", None), ("slice:cloned", "exact", None), ("iter:copied", "exact", False), ("iter:cloned", "none", False)]
     if prop == "C07":
-        kinds = [k for k in kinds if k[0] == "iter"]
+        kinds = [k for k in kinds if k[0].startswith("iter")]
     if prop in ("C08", "C15"):
         kinds = [k for k in kinds if k[0] in ("vec", "array", "iter")]
     out = []
     n = 0
-    for kind, hint, owning in kinds:
+    for kind_, hint, owning in kinds:
+        kind, _, adaptor = kind_.partition(":")
+        start = 0
+        if kind.endswith("+5"):
+            kind, start = kind[:-2], 5
         for ln in (1, 2, 0):
             for i in range(len(progs)):
                 for j in range(i, len(progs)):
-                    env = mk_env(kind, ln, hint=hint, owning=owning, mode=mode)
+                    env = mk_env(kind, ln, hint=hint, owning=owning, mode=mode, adaptor=adaptor or "none", start=start)
                     out.append(dict(id="%s-enum-%s-%d" % (prop, mode[0], n), env=env, progs=[list(progs[i]), list(progs[j])],
                                     final="drop", seed=0, gen="random", sched=None))
                     n += 1
